@@ -90,6 +90,10 @@ def sanitize_variable_name(
     """
     if name.isidentifier() or keyword.iskeyword(name):
         return name
+    if not name:
+        from formulaic.errors import FormulaSyntaxError
+
+        raise FormulaSyntaxError("Back-quoted variable names must not be empty.")
 
     # Compute recognisable basename
     base_name = "".join([char if re.match(r"\w", char) else "_" for char in name])
